@@ -1,5 +1,6 @@
 import Log4rsModel.Reconfig.LemmasSwap
 import Log4rsModel.Reconfig.LemmasReloader
+import Log4rsModel.Reconfig.LemmasFacade
 /-
 C15 — Runtime reconfiguration is atomic; the file reloader keeps the last good config.
 Only property theorems and non-vacuity examples live here; helpers are in
@@ -519,5 +520,139 @@ example : Safe false wInit [.missing, .ok 11 wBad, .ok 12 wB] := by
   intro fv hfv m
   simp only [List.mem_cons, List.not_mem_nil, or_false] at hfv
   rcases hfv with rfl | rfl | rfl <;> simp
+
+end Log4rs.Reconfig.Reloader
+
+namespace Log4rs.Reconfig
+
+/-! ## (a) reconfiguring threadS: `set_config` is two writes -/
+
+/-- FULL STATEMENT: whenever no `set_config` call is in flight, the facade's gate is that of the
+configuration whose snapshot is stored — for every interleaving of the two writes of any number of
+`set_config` calls. False for the code as it is (`setConfigSerialised = false`). -/
+def C15_set_config_consistent_statement : Prop :=
+  ∀ (cfgs : List MiniCfg) (evs : List FEvent),
+    let s := FSys.run setConfigSerialised cfgs (FSys.init cfgs) evs
+    s.quiescent = true → s.maxLevel = cfgMax cfgs s.store
+
+/-- PROVED PART for the code as it is: interleavings in which at most one call at a time is between
+its two writes (one reconfiguring thread, or reconfigurers that happen not to overlap there) -/
+theorem C15_set_config_consistent_partial (cfgs : List MiniCfg) (evs : List FEvent)
+    (hone : ∀ s' ∈ FSys.states setConfigSerialised cfgs (FSys.init cfgs) evs, s'.atHook.length ≤ 1) :
+    let s := FSys.run setConfigSerialised cfgs (FSys.init cfgs) evs
+    s.quiescent = true → s.maxLevel = cfgMax cfgs s.store := by
+  intro s hq
+  have h := FSys.run_consistent_of_one setConfigSerialised cfgs evs _ (FSys.init_consistent cfgs) hone
+  simp only [FSys.quiescent, Bool.and_eq_true, List.isEmpty_iff] at hq
+  exact h.2.1 hq.1
+
+/-- with the proposed patch (a lock held across both writes) the statement holds for every
+interleaving: a second call waits until the first has stored -/
+theorem C15_set_config_consistent_serialised (cfgs : List MiniCfg) (evs : List FEvent) :
+    let s := FSys.run true cfgs (FSys.init cfgs) evs
+    s.quiescent = true → s.maxLevel = cfgMax cfgs s.store := by
+  intro s hq
+  have h := FSys.run_serialised_consistent cfgs evs _ (FSys.init_consistent cfgs)
+  simp only [FSys.quiescent, Bool.and_eq_true, List.isEmpty_iff] at hq
+  exact h.2.1 hq.1
+
+/-- the witness (case `C15 race 10;3;10|20;5;20|30;1;30 a1,a2,s2,s1 0.1,0.2,0.3,0.4,0.5`): both
+calls have returned, the snapshot is A's (root Trace), the gate is B's (Error): an error record is
+delivered by A's appender, everything else is dropped as B would — for good -/
+theorem C15_two_writers_witness :
+    let s := FSys.run false [fc0, fc1, fc2] (FSys.init [fc0, fc1, fc2]) fRace
+    s.quiescent = true ∧ s.done = [2, 1] ∧ s.store = 1 ∧ s.maxLevel = 1 ∧ cfgMax [fc0, fc1, fc2] 1 = 5 ∧
+    s.record [fc0, fc1, fc2] 0 1 = [(1, 20)] ∧ s.record [fc0, fc1, fc2] 0 4 = [] ∧
+    prescribed (mkSnapshot fc1) 0 4 = [(1, 20)] ∧ prescribed (mkSnapshot fc2) 0 1 = [(2, 30)] := by
+  decide
+
+theorem C15_two_writers_refute (hcode : setConfigSerialised = false) :
+    ¬ C15_set_config_consistent_statement := by
+  intro hst
+  have h := hst [fc0, fc1, fc2] fRace
+  rw [hcode] at h
+  have hw := C15_two_writers_witness
+  simp only at h hw
+  have := h hw.1
+  rw [hw.2.2.1, hw.2.2.2.1, hw.2.2.2.2.1] at this
+  exact absurd this (by decide)
+
+/-- one record, any state reachable with at most one call between its writes: the gate never
+produces a mixture — the record is treated entirely as the stored configuration prescribes or
+entirely as the configuration whose level the gate holds prescribes (dropped) -/
+theorem C15_gate_one_config (cfgs : List MiniCfg) (s : FSys) (j : Nat) (cs cj : MiniCfg)
+    (hs : cfgs[s.store]? = some cs) (hj : cfgs[j]? = some cj) (hmax : s.maxLevel = cfgMax cfgs j)
+    (t : Target) (l : Level) :
+    s.record cfgs t l = prescribed (mkSnapshot cs) t l ∨ s.record cfgs t l = prescribed (mkSnapshot cj) t l := by
+  unfold FSys.record
+  split
+  · left; simp [hs]
+  · right
+    rename_i hl
+    have hc : cfgMax cfgs j = cj.maxLevel := by simp [cfgMax, hj]
+    have hl' : ¬ l ≤ cj.maxLevel := by rw [← hc, ← hmax]; exact hl
+    have : cj.maxLevel < l := Nat.lt_of_not_le hl'
+    rw [prescribed_above_max cj t l this]
+
+end Log4rs.Reconfig
+
+namespace Log4rs.Reconfig.Reloader
+
+/-! ## (b) the initialisation looks at the file twice -/
+
+/-- FULL STATEMENT: whatever edit lands between the two looks of `init_file`, the history that
+follows satisfies the specification. False for the code as it is (read, then stat). -/
+def C15_init_then_polls_meets_spec_statement : Prop :=
+  ∀ (noMtime : Bool) (v1 v2 : FileView Doc) (st0 : RState Doc) (h : List (FileView Doc)),
+    initState2 parseDoc initStatsBeforeRead noMtime v1 v2 = some st0 →
+    specHistory2 parseDoc noMtime v1 v2 (obsOf .unchanged st0) (modelPolls parseDoc codeFixed st0 h) = none
+
+/-- PROVED PART: no edit lands between the two looks -/
+theorem C15_init_then_polls_meets_spec_partial (noMtime : Bool) (v : FileView Doc) (st0 : RState Doc)
+    (h : List (FileView Doc)) (hinit : initState2 parseDoc initStatsBeforeRead noMtime v v = some st0) :
+    specHistory2 parseDoc noMtime v v (obsOf .unchanged st0) (modelPolls parseDoc codeFixed st0 h) = none := by
+  have hinit' : ∃ text, v.text? = some text ∧
+      initState parseDoc (if noMtime then none else v.mtime?) text = some st0 := by
+    unfold initState2 at hinit
+    cases hv : v.text? with
+    | none => cases initStatsBeforeRead <;> simp [hv] at hinit
+    | some text => exact ⟨text, rfl, by cases initStatsBeforeRead <;> simpa [hv] using hinit⟩
+  obtain ⟨text, hv, hi⟩ := hinit'
+  unfold initState at hi
+  cases hp : parseDoc text with
+  | none => simp [hp] at hi
+  | some p =>
+    obtain ⟨c, r⟩ := p
+    simp only [hp, Option.some.injEq] at hi
+    subst hi
+    have hgo := specPolls_model parseDoc codeFixed h
+      { modified := if noMtime then none else v.mtime?, source := text, active := c, rate := r.getD 0, alive := r.isSome }
+      { remM := if noMtime then none else v.mtime?, remText := text, prevText := some text,
+        prev := obsOf .unchanged { modified := if noMtime then none else v.mtime?, source := text, active := c, rate := r.getD 0, alive := r.isSome } }
+      1 (by simp [Linked, obsOf]) (Or.inl rfl)
+    unfold specHistory2
+    cases r <;> simp [hv, hp, obsOf, List.filter] at hgo ⊢ <;> simp [hgo]
+
+/-- the witness (case `C15 reload g:1:30:0;g:2:60:0 0:10:0:f:e1.11 w:1:11,w:1:11`): the text of
+version A (mtime 10) was read, then the file became B (mtime 11), then the mtime was taken: the
+reloader remembers (A's text, B's mtime) and never looks at B -/
+theorem C15_init_race_witness :
+    initState2 parseDoc false false (.ok 10 wA) (.ok 11 wB) = some { wInit with modified := some 11 } ∧
+    (pollAll parseDoc codeFixed { wInit with modified := some 11 } [.ok 11 wB, .ok 11 wB]).map
+      (fun p => (p.1, p.2.active)) = [(.unchanged, 1), (.unchanged, 1)] ∧
+    (specHistory2 parseDoc false (.ok 10 wA) (.ok 11 wB) (obsOf .unchanged { wInit with modified := some 11 })
+      (modelPolls parseDoc codeFixed { wInit with modified := some 11 } [.ok 11 wB, .ok 11 wB])).isSome = true ∧
+    -- stat first, then read: B is what gets loaded
+    (initState2 parseDoc true false (.ok 10 wA) (.ok 11 wB)).map (fun st => (st.modified, st.active)) = some (some 10, 2) := by
+  decide
+
+theorem C15_init_race_refute (hcode : initStatsBeforeRead = false) :
+    ¬ C15_init_then_polls_meets_spec_statement := by
+  intro hst
+  have h := hst false (.ok 10 wA) (.ok 11 wB) { wInit with modified := some 11 } [.ok 11 wB, .ok 11 wB]
+    (by rw [hcode]; exact C15_init_race_witness.1)
+  have h2 := C15_init_race_witness.2.2.1
+  rw [h] at h2
+  exact absurd h2 (by decide)
 
 end Log4rs.Reconfig.Reloader
